@@ -357,7 +357,9 @@ class DaskMixinsInheritCore(Contract):
     files = [DASK, 'streamz/core.py']
     qual = 'DaskStream.__init__'
     name = 'dask mixin classes inherit the core step'
-    props = ['C20']
+    # the Dask variants of the nodes carry the properties of their core classes (rate_limit: C13, latest: C14, partition /
+    # timed_window: C08, buffer / delay: C02, C03, zip / union / combine_latest / sliding_window: C01)
+    props = ['C20', 'C13', 'C14', 'C08', 'C01', 'C02', 'C03']
     MIXINS = ['buffer', 'combine_latest', 'delay', 'latest', 'partition', 'rate_limit', 'sliding_window', 'timed_window',
               'union', 'zip']
 
